@@ -29,6 +29,15 @@ def main(tier, seed):
     # also: no partials at all, and a parser with only broken partials
     scenarios.append({"partials": [], "templates": [[("text", "plain")], [("include", tpl.Sx("p"), [])]], "datas": [[]]})
     scenarios.append({"partials": [("b1", scen.BROKEN), ("b2", "{{ | }}")], "templates": [[("text", "ok")], [("render", tpl.Sx("b1"), None, [])], [("include", tpl.Sx("b2"), [])]], "datas": [[]]})
+    # a name and the same name with the `.liquid` suffix (render falls back to the suffixed name) are two partials
+    S = tpl.Sx
+    scenarios.append({"partials": [("card", [("text", "plain")]), ("card.liquid", [("text", "suffixed")]), ("only.liquid", [("text", "O")])],
+                      "templates": [[("include", S("card"), []), ("text", "|"), ("include", S("card.liquid"), [])], [("render", S("card.liquid"), None, []), ("text", "|"), ("render", S("card"), None, [])],
+                                    [("render", S("only"), None, []), ("render", S("only.liquid"), None, [])], [("include", S("card.liquid"), [])], [("include", S("card"), [])]], "datas": [[]]})
+    scenarios.append({"partials": [("card", scen.BROKEN), ("card.liquid", [("text", "fallback")])],
+                      "templates": [[("render", S("card"), None, [])], [("render", S("card.liquid"), None, [])], [("include", S("card.liquid"), []), ("include", S("card"), [])]], "datas": [[]]})
+    scenarios.append({"partials": [("card", [("text", "plain")]), ("card.liquid", scen.BROKEN)],
+                      "templates": [[("render", S("card.liquid"), None, [])], [("render", S("card"), None, [])], [("include", S("card"), [])]], "datas": [[]]})
     reqs = []
     for si, sc in enumerate(scenarios):
         pairs = [(t, d) for t in range(len(sc["templates"])) for d in range(len(sc["datas"]))]
